@@ -1,0 +1,13 @@
+//go:build verif
+
+package xy
+
+// VerifHook, when set, receives one event per iteration of the Douglas-Peucker interval stack
+// (verification instrumentation; compiled only with the "verif" build tag).
+var VerifHook func(ev string, args ...int)
+
+func verifEmit(ev string, args ...int) {
+	if VerifHook != nil {
+		VerifHook(ev, args...)
+	}
+}
